@@ -20,7 +20,7 @@ from .runner import Stats, digest_dump, load_known, match_known
 
 PROP = "C20"
 PLAN = {"quick": {"budget_s": 50, "max_runs": 600}, "thorough": {"budget_s": 900, "max_runs": 40000}}
-KINDS = ["status", "create_zip", "make_zip", "zipbuilder", "download", "render"]
+KINDS = ["status", "create_zip", "make_zip", "zipbuilder", "download", "render", "download_fetcher"]
 BUFSIZES = [1, 64, 4096, 8192, 1 << 20]
 
 
@@ -52,7 +52,9 @@ def draw_scenario(seed, i, kind=None):
     kind = kind or KINDS[i % len(KINDS)]
     p = {"kind": kind, "index": i, "prev": rng.random() < 0.5,
          "bufsizes": [rng.choice(BUFSIZES) for _ in range(rng.randint(1, 4))],
-         "name_seed": rng.getrandbits(32), "content_seed": rng.getrandbits(32)}
+         "name_seed": rng.getrandbits(32), "content_seed": rng.getrandbits(32),
+         # configuration: is the output directory a file system of its own (renames from TMPDIR fail with EXDEV)?
+         "exdev": rng.random() < 0.5}
     if kind == "status":
         n = rng.randint(1, 5)
         ups = []
@@ -72,6 +74,21 @@ def draw_scenario(seed, i, kind=None):
         n = rng.randint(0, 6)
         p["chunks"] = [rng.choice([1, 100, 4096, 16384, 16384, 70000]) for _ in range(n)]
         p["mode"] = rng.choice(["ok", "ok", "429-then-ok", "read-error", "429-forever"])
+        p["prev_size"] = rng.randrange(1, 5000)
+    elif kind == "download_fetcher":
+        # several images through Fetcher._download_image (its own temp-name choice, its pools);
+        # the same URL may be scheduled under two titles (File:/Datei: aliases, titles derived from URLs)
+        urls = [f"http://upload.example.org/thumb/{n}/800px-{n}" for n in ("FileMap.png", "Über x.jpg", "c.svg")][: rng.randint(1, 3)]
+        dl = []
+        for _ in range(rng.randint(2, 4)):
+            u = rng.randrange(len(urls))
+            title = rng.choice(["File", "Datei", "Image"]) + ":" + urls[u].rsplit("/", 2)[1]
+            if [u, title] not in dl:
+                dl.append([u, title])
+        p["urls"] = urls
+        p["downloads"] = dl
+        p["bodies"] = [[rng.choice([100, 8192, 16384, 16384, 20000]) for _ in range(rng.randint(1, 5))] for _ in urls]
+        p["max_connections"] = rng.choice([1, 2, 3, 10])
         p["prev_size"] = rng.randrange(1, 5000)
     elif kind == "render":
         n = rng.randint(1, 8)
@@ -274,6 +291,68 @@ class Scenario:
         temp_path = (path + "\xb7").encode("utf-8")  # as Fetcher.schedule_download_image does
         fetch.download_to_file("http://img.example.org/Foo.png", path, temp_path, max_retries=2, initial_delay=0.01)
 
+    # -- download through the Fetcher -------------------------------------------------
+    def prepare_download_fetcher(self):
+        from mwlib.utils import unorganized
+        self.url_bodies = [b"".join(_blob(self.crng, n) for n in sizes) for sizes in self.p["bodies"]]
+        for i, (u, title) in enumerate(self.p["downloads"]):
+            label = f"image{i}"
+            self.published[label] = os.path.join(self.out, "images", unorganized.fs_escape(title))
+            self.prev[label] = _blob(self.crng, self.p["prev_size"]) if (self.p["prev"] and i % 2 == 0) else None
+            self.new[label] = self.url_bodies[u]
+
+    def produce_download_fetcher(self, tracer):
+        import gevent
+        import gevent.pool
+        from mwlib.network import fetch
+        p = self.p
+        bodies = {url: (self.url_bodies[i], p["bodies"][i]) for i, url in enumerate(p["urls"])}
+
+        class Resp:
+            status_code = 200
+
+            def __init__(self, url):
+                self.url = url
+
+            def raise_for_status(self):
+                pass
+
+            def iter_bytes(self, chunk_size=None):
+                body, sizes = bodies[self.url]
+                off = 0
+                for n in sizes:
+                    gevent.sleep(0)  # the next chunk arrives later: other downloads run
+                    yield body[off:off + n]
+                    off += n
+
+            def __enter__(self):
+                return self
+
+            def __exit__(self, *a):
+                return False
+
+        class Client:
+            def __init__(self, url):
+                self.url = url
+
+            def stream(self, method, url):
+                gevent.sleep(0)
+                return Resp(url)
+
+        fetch._get_download_client = lambda url: Client(url)
+        fetch._acquire_download_rate_limit = lambda url: None
+        gevent.get_hub().handle_error = lambda *a: None  # failing downloads die quietly, like in a real fetch
+        fs = fetch.FsOutput.__new__(fetch.FsOutput)  # only get_imagepath is used
+        fs.path = self.out
+        fs.imgcount = 0
+        f = fetch.Fetcher.__new__(fetch.Fetcher)
+        f.fsout = fs
+        f.image_download_pool = gevent.pool.Pool(p["max_connections"])
+        f.pool = gevent.pool.Pool()
+        for u, title in p["downloads"]:
+            f._download_image(p["urls"][u], title)
+        f.pool.join()
+
     # -- render ----------------------------------------------------------------------
     def prepare_render(self):
         ext = "pdf"
@@ -416,7 +495,7 @@ class Scenario:
 def applicable_kinds(op):
     name = op[0]
     kinds = ["crash", "enospc"]
-    if name in ("write", "os.write"):
+    if name in ("write", "os.write", "sendfile", "copy_file_range"):
         kinds.append("eio_short")
     if name in ("close", "os.close", "rename", "replace"):
         kinds.append("eio_after")
@@ -425,7 +504,11 @@ def applicable_kinds(op):
 
 def run_point(sc, fault):
     sc.stage()
-    code, rep = fsfault.fork_run(sc.produce, sc.out, fault, sc.p["bufsizes"], sc.p["name_seed"])
+    tmp = os.path.join(sc.root, "tmp")
+    shutil.rmtree(tmp, ignore_errors=True)
+    os.makedirs(tmp)
+    code, rep = fsfault.fork_run(sc.produce, sc.out, fault, sc.p["bufsizes"], sc.p["name_seed"],
+                                 exdev=bool(sc.p.get("exdev")), tmpdir=tmp)
     return code, rep
 
 
@@ -443,6 +526,7 @@ def explore_scenario(p, root, stats, only=None):
     stats["scenarios"] += 1
     digest_dump(p["index"], stable_hash([ref["trace"], ref["marks"]]))
     Stats.merge(stats["scenario_kinds"], {p["kind"]: 1})
+    Stats.merge(stats["configs"], {"output-dir-is-own-filesystem" if p.get("exdev") else "single-filesystem": 1})
     stats["ops_total"] += ref["n"]
     stats["max_ops"] = max(stats["max_ops"], ref["n"])
     for op in ref["trace"]:
@@ -485,7 +569,7 @@ def explore_scenario(p, root, stats, only=None):
 
 def new_stats():
     return {"scenarios": 0, "points": 0, "ops_total": 0, "max_ops": 0, "scenario_kinds": {}, "op_kinds": {},
-            "faults": {}, "probes": {}, "reader_states": {}, "distinct": set()}
+            "faults": {}, "probes": {}, "reader_states": {}, "distinct": set(), "configs": {}}
 
 
 def preimport():
@@ -552,6 +636,7 @@ def evidence(stats, samples, plan, tier, seed, wall, nviol, known_hits, nworkers
         "exhaustive_scope": "positions x fault kinds of every explored scenario's system-call trace; scenarios are sampled",
         "scenarios": stats.get("scenarios", 0),
         "scenario_kinds": stats.get("scenario_kinds", {}),
+        "configurations": stats.get("configs", {}),
         "syscall_positions_total": stats.get("ops_total", 0),
         "max_positions_in_one_scenario": stats.get("max_ops", 0),
         "op_kinds_in_reference_traces": dict(sorted(stats.get("op_kinds", {}).items())),
